@@ -30,7 +30,9 @@ def cast_state(
         state_tuple = state
 
     # Cast to init_state: Tuple[Tensor, ...] with desired dtype and device
-    state_tensor_tuple: Tuple[Tensor, ...] = tuple(map(torch.as_tensor, state_tuple))
-    state_tensor_tuple = tuple(map(lambda t: t.to(device, dtype), state_tensor_tuple))
+    # Note: torch.as_tensor(float) alone would round the value to the default dtype first
+    state_tensor_tuple: Tuple[Tensor, ...] = tuple(
+        torch.as_tensor(s, dtype=dtype, device=device) for s in state_tuple
+    )
 
     return state_tensor_tuple
